@@ -24,7 +24,8 @@ RULE = (
     "followed by the whole pool in one interpreter; adjacency sweeps: a, b1, a, b2, ... so that "
     "every call b runs immediately after a (quick: a = one load per format module; thorough: every a). Histories: Hypothesis draws sequences (with repetitions) of "
     "pool calls, each executed in one fresh interpreter; schedules: the same sequences distributed "
-    "over 2-16 threads with a 1 microsecond switch interval. Oracle: every call's digest (SNAP of "
+    "over 2-16 threads with a 1 microsecond switch interval, and every family of calls into one "
+    "format module (and all users of the overlap code) running simultaneously in 4 and 8 threads. Oracle: every call's digest (SNAP of "
     "the result | hash of the bytes written | exception class + normalised message) equals its "
     "reference and no module-level table of any iodata module changes. Non-trivial = a history in "
     "which a dump precedes a call of a different format; distinct by spec hash."
@@ -191,6 +192,39 @@ def shard_adjacent(ctx, part, nparts, prepared):
         ctx.report({"history": spec["history"], "threads": 0}, problems)
 
 
+def family_of(call):
+    """Calls that go through the same format module (and therefore share its module-level state)."""
+    if call["op"] in ("overlap",):
+        return "overlap"
+    key = call.get("fmt") or call.get("program") or call.get("file", "").rsplit(".", 1)[-1]
+    return str(key).lower()
+
+
+def shard_hot_threads(ctx, part, nparts, prepared):
+    """Races are likeliest between simultaneous calls into the *same* module: for every family of
+    pool calls (same format module; all users of the overlap code together) the family's calls
+    run at the same time in 4 and in 8 threads, each call several times."""
+    pool, reference = prepared["pool"], prepared["reference"]
+    families = {}
+    for i, call in enumerate(pool):
+        if str(i) in reference:
+            families.setdefault(family_of(call), []).append(i)
+    # everything that computes overlap integrals: Molden / Molekel loads, conversions to them, overlap
+    overlap_users = [i for fam in ("molden", "input", "mkl", "molekel", "overlap") for i in families.get(fam, [])]
+    if overlap_users:
+        families["overlap_users"] = overlap_users
+    for k, (name, members) in enumerate(sorted(families.items())):
+        if k % nparts != part:
+            continue
+        for nthreads in (4, 8):
+            reps = max(2, -(-2 * nthreads // len(members)))
+            history = (members * reps)[: max(2 * nthreads, len(members))]
+            spec = {"history": history, "threads": nthreads}
+            problems, _nt, _labels = check_history(spec, prepared)
+            ctx.record({"kind": "hot_threads", "family": name, "threads": nthreads, "calls": len(history)}, len(members) > 0, ["hot_threads"])
+            ctx.report(spec, problems)
+
+
 def shard_selfmod(ctx, prepared):
     """A single call in a fresh interpreter must not change a module table either."""
     pool = prepared["pool"]
@@ -211,6 +245,8 @@ def shards(tier, seed):
         out.append((f"pairs{part}", "shard_pairs", {"part": part, "nparts": 5}))
     for part in range(5):
         out.append((f"adjacent{part}", "shard_adjacent", {"part": part, "nparts": 5}))
+    for part in range(3):
+        out.append((f"hot_threads{part}", "shard_hot_threads", {"part": part, "nparts": 3}))
     for i in range(6):
         out.append((f"histories{i}", "shard_histories", {"max_examples": 300 if big else 22, "threads": False}))
     for i in range(4):
